@@ -36,12 +36,16 @@ def main():
     assert "src/tests" not in diff, "patch touches tests"
     # (1) demo with / without
     with_rc = sh(f"/venv/bin/python demo_{pl}.py", wt, timeout=600).returncode
-    sh("git stash -q -- src", wt)
+    # without the patch: a pristine export of HEAD next to the worktree (never `git stash`: the stash is shared between worktrees)
+    import shutil
+    import tempfile
+    pristine = Path(tempfile.mkdtemp(prefix="verif-seed-pristine-", dir="/var/tmp"))
     try:
-        without_rc = sh(f"/venv/bin/python demo_{pl}.py", wt, timeout=600).returncode
+        subprocess.run(f"git -C {wt} archive HEAD src | tar -x -C {pristine}", shell=True, check=True)
+        shutil.copy(demo, pristine / demo.name)
+        without_rc = sh(f"/venv/bin/python demo_{pl}.py", str(pristine), timeout=600).returncode
     finally:
-        r = sh("git stash pop -q", wt)
-        assert r.returncode == 0, r.stderr
+        shutil.rmtree(pristine, ignore_errors=True)
     print(f"demo: without patch rc={without_rc}, with patch rc={with_rc}")
     # (2) unit tests with the patch
     r = sh("/venv/bin/python -m pytest -q -p no:cacheprovider --timeout=900 --continue-on-collection-errors --junitxml=/var/tmp/seed_junit.xml", wt, timeout=3000)
